@@ -2,6 +2,8 @@ package rules
 
 import (
 	"fmt"
+	"go/constant"
+	"sort"
 	"go/token"
 	"go/types"
 	"strings"
@@ -31,10 +33,14 @@ func checkC14(p *core.Program, r *core.Report) {
 	const R2 = "C14.R2 non-lossy-stop"
 	const R3 = "C14.R3 fire-revalidation"
 	const R4 = "C14.R4 one-fire-per-arm"
+	const R5 = "C14.R5 arm-always-arms"
+	const R6 = "C14.R6 phase-local-timer"
 	r.Explanation = "C14 (a stopped or replaced handshake timer never fires): the schedule property itself is not static; decided is that the cancellation protocol of package ship is not lossy by construction: (R1) the stop channel a timer goroutine waits on is created by the arming invocation (per-arm token), not a channel shared by all timers of the connection; (R2) stopping cancels by close() of that token (or Timer.Stop) on every path that clears the running flag - a non-blocking send, which is dropped when the goroutine has not reached its select yet, is rejected; (R3) on the fire arm the timeout is delivered only under a comparison, made under the timer mutex, of the connection's current token with the goroutine's own; (R4) the wait is not in a loop, so an armed timer delivers at most one timeout. Not decided: real timing."
 	r.Rule(R1, "the non-timer arm of the timer goroutine's select receives from a channel made in the arming function invocation")
 	r.Rule(R2, "every path that stores false into the running flag (outside the fire path) closes the current token unless it is nil; no non-blocking send is used for cancellation")
 	r.Rule(R3, "the timeout dispatch in the timer goroutine is guarded by token identity, compared under handshakeTimerMux")
+	r.Rule(R5, "every path through an arming function reaches the go statement of its timer goroutine (no 'already armed' early return)")
+	r.Rule(R6, "over the handshake automaton extracted from package ship (E1): starting from the constructor's configuration, in every reachable quiescent configuration with a running timer, no entry run ends in a state of another handshake phase with the timer still running unless the run re-armed it")
 	r.Rule(R4, "neither the select nor the timeout dispatch of the timer goroutine is inside a loop")
 
 	conn := p.Named("ship", "ShipConnection")
@@ -365,6 +371,18 @@ func checkC14(p *core.Program, r *core.Report) {
 	if nstop == 0 {
 		r.Fail(R2, "stop paths", "", "no site clears the running flag: timers can never be stopped")
 	}
+	// R5: arming is unconditional
+	for _, a := range arms {
+		key := "arming in " + shortFn(p.FnName(a.fn)) + " always starts its timer"
+		if bad := core.MustPass(a.fn, nil, func(y ssa.Instruction) bool { return y == a.goInstr }, nil); bad != nil {
+			r.Fail(R5, key, p.Pos(bad.Pos()), "the arming function can return without starting a timer goroutine of its own: the caller's (re-)arm is silently dropped and an older timer, armed for an earlier deadline, delivers the timeout")
+		} else {
+			r.OK(R5, key, p.Pos(a.goInstr.Pos()), "every return of the arming function is preceded by the go statement of its timer goroutine")
+		}
+	}
+	checkPhaseTimers(p, r, R6)
+	r.Floor(R5, 1)
+	r.Floor(R6, 4)
 	r.Counts["timer_goroutines"] = len(arms)
 	r.Counts["stop_sites"] = nstop
 	r.Floor(R1, 1)
@@ -376,3 +394,106 @@ func checkC14(p *core.Program, r *core.Report) {
 
 const token_EQL = token.EQL
 const token_NEQ = token.NEQ
+
+
+// statePhase groups the SHIP handshake states into the phases of SHIP 13.4.3-13.4.6 by the prefix of the model constant.
+func statePhase(name string) string {
+	for _, pre := range []string{"CmiState", "SmeHelloState", "SmeProtHState", "SmePinState", "SmeAccessMethods"} {
+		if strings.HasPrefix(name, pre) {
+			return pre
+		}
+	}
+	return "final"
+}
+
+// checkPhaseTimers (C14.R6): a timer armed in one handshake phase does not survive, un-re-armed, into a state of another phase.
+func checkPhaseTimers(p *core.Program, r *core.Report, R6 string) {
+	fr := getFSM(p, r, R6)
+	if fr == nil {
+		return
+	}
+	f := fr.f
+	// initial state: the constant the constructor stores into the state field of the fresh connection
+	initState := int8(-1)
+	for _, fn := range p.FuncsOf("ship") {
+		core.EachInstr(fn, func(in ssa.Instruction) {
+			fv, base, v := core.StoredField(in)
+			if fv != f.fState {
+				return
+			}
+			if _, fresh := core.Canon(base).(*ssa.Alloc); !fresh {
+				return
+			}
+			if c := core.ConstOf(v); c != nil {
+				if iv, ok := constant.Int64Val(c); ok {
+					if idx, ok := f.stateIdx[iv]; ok {
+						initState = idx
+					}
+				}
+			}
+		})
+	}
+	if initState < 0 {
+		r.Unresolved(R6, "initial handshake state stored by the ShipConnection constructor")
+		return
+	}
+	strip := func(c cfgT) cfgT { c.trusted, c.closing, c.armed = false, false, false; return c }
+	byInit := map[cfgT][]entryResult{}
+	for _, er := range fr.results {
+		byInit[er.init] = append(byInit[er.init], er)
+	}
+	reach := map[cfgT]bool{}
+	var work []cfgT
+	for role := int8(0); role < 2; role++ {
+		c := cfgT{role: role, state: initState}
+		reach[c] = true
+		work = append(work, c)
+	}
+	type viol struct {
+		role     int8
+		from, to int8
+		entry    string
+	}
+	bad := map[viol]bool{}
+	checked := map[string]bool{}
+	for len(work) > 0 {
+		c := work[len(work)-1]
+		work = work[:len(work)-1]
+		for _, er := range byInit[c] {
+			for _, fin := range er.final {
+				if c.timer && !c.closed {
+					k := f.roleName(c.role) + " " + f.stateName(c.state)
+					checked[k] = true
+					if fin.timer && !fin.armed && !fin.closed && statePhase(f.stateName(fin.state)) != statePhase(f.stateName(c.state)) {
+						bad[viol{c.role, c.state, fin.state, er.entry}] = true
+					}
+				}
+				n := strip(fin)
+				if !reach[n] {
+					reach[n] = true
+					work = append(work, n)
+				}
+			}
+		}
+	}
+	badFrom := map[string][]string{}
+	for v := range bad {
+		k := f.roleName(v.role) + " " + f.stateName(v.from)
+		badFrom[k] = append(badFrom[k], f.stateName(v.to)+" via "+shortFn(v.entry))
+	}
+	var ks []string
+	for k := range checked {
+		ks = append(ks, k)
+	}
+	sort.Strings(ks)
+	for _, k := range ks {
+		key := "timer running in " + k + " does not outlive its phase"
+		if b := badFrom[k]; len(b) > 0 {
+			sort.Strings(b)
+			r.Fail(R6, key, "", "a run that starts with the timer of this state running ends, without stopping or re-arming it, in a state of another handshake phase: "+strings.Join(b, "; ")+" - that state is then torn down by a timeout belonging to the earlier phase")
+		} else {
+			r.OK(R6, key, "", "every run leaving the phase stops or re-arms the timer")
+		}
+	}
+	r.Counts["reachable_quiescent_configs"] = len(reach)
+}
